@@ -518,6 +518,67 @@ def check_revenue_after_energy_adjustments(ctx) -> None:
             ctx.ok('K8', key, f'{g.module.rel}:{top[first].lineno}', f'no later Calculate call rewrites {sorted(reads)[:4]}...')
 
 
+LIST_MUTATORS = {'insert', 'append', 'extend', 'pop', 'remove', 'sort', 'reverse', 'clear', 'fill', 'resize', 'put'}
+
+
+def check_series_arguments_untouched(ctx) -> None:
+    repo = ctx.repo
+    mods = [m for m in ('geophires_x/Economics.py', 'geophires_x/SBTEconomics.py', 'geophires_x/EconomicsAddOns.py') if repo.has_module(m)]
+    helpers = {}
+    for m in mods:
+        for f in repo.module(m).functions.values():
+            helpers.setdefault(f.name, f)
+    # parameters that receive shared model storage: bound to `<x>.value` at a call site, or to a shared parameter of the caller
+    shared = {}
+    callers = [f for f in repo.all_functions() if any(m in f.module.rel for m in ('Economics',))]
+    changed = True
+    rounds = 0
+    while changed and rounds < 6:
+        changed = False
+        rounds += 1
+        for g in callers:
+            if not isinstance(g.node, (ast.FunctionDef, ast.AsyncFunctionDef)):
+                continue
+            for c in calls_in(g.node):
+                nm = (dotted_name(c.func) or '').split('.')[-1]
+                h = helpers.get(nm)
+                if h is None or h is g:
+                    continue
+                params = [a.arg for a in h.node.args.args]
+                off = 1 if params[:1] == ['self'] and not (c.args and isinstance(c.args[0], ast.Name) and c.args[0].id == 'self') else 0
+                binds = [(params[i + off], a) for i, a in enumerate(c.args) if i + off < len(params)]
+                binds += [(kw.arg, kw.value) for kw in c.keywords if kw.arg in params]
+                for pn, a in binds:
+                    is_shared = (isinstance(a, ast.Attribute) and a.attr == 'value') or \
+                        (isinstance(a, ast.Name) and (g.name, a.id) in shared)
+                    if is_shared and (h.name, pn) not in shared:
+                        shared[(h.name, pn)] = f'{g.qualname} passes `{norm(a)}`'
+                        changed = True
+    n = 0
+    for (hn, pn), why in sorted(shared.items()):
+        h = helpers[hn]
+        rebound = {t.id for st in ast.walk(h.node) if isinstance(st, ast.Assign) for t in st.targets if isinstance(t, ast.Name)}
+        n += 1
+        bad = None
+        if pn not in rebound:
+            for st in ast.walk(h.node):
+                if isinstance(st, (ast.Assign, ast.AugAssign)):
+                    for t in (st.targets if isinstance(st, ast.Assign) else [st.target]):
+                        b = t
+                        while isinstance(b, ast.Subscript):
+                            b = b.value
+                        if isinstance(b, ast.Name) and b.id == pn and (isinstance(t, ast.Subscript) or isinstance(st, ast.AugAssign)):
+                            bad = st
+                if isinstance(st, ast.Call) and isinstance(st.func, ast.Attribute) and st.func.attr in LIST_MUTATORS and \
+                        isinstance(st.func.value, ast.Name) and st.func.value.id == pn:
+                    bad = st
+        ctx.check(bad is None, 'K9', f'{hn}({pn})/series-argument-untouched', f'{h.module.rel}:{(bad or h.node).lineno}',
+                  f'{hn} changes its parameter `{pn}` in place (`{norm(bad)[:70] if bad is not None else ""}`), and {why}: the model\'s own series is '
+                  f'altered by evaluating it, so the reported yearly series is no longer the one the reported figures were computed on',
+                  fact=f'{why}; never modified')
+    ctx.floor('K9', n, 2, 'helper parameters that receive a model series')
+
+
 def run(ctx) -> None:
     ctx.rule('K1', 'CalculateRevenue: revenue[i] = Energy[i-C] x Price[i-C] / 1e6 for i in exactly [C, L+C) (equal subscripts, MUSD by '
                    'unit typing), cumulative recurrence cum[i] = cum[i-1] + rev[i]')
@@ -540,6 +601,10 @@ def run(ctx) -> None:
     from rules.rate_sync import check_rate_sync
     _n = check_rate_sync(ctx, 'K7', only_functions={'sync_interest_rate'})
     ctx.floor('K7', _n, 4, 'conversion assignments / sync functions of the rate family')
+    ctx.rule('K9', 'the finance helpers leave the series they are handed as they are: no insert/append/element store/in-place operator on a '
+                   'parameter that (transitively) receives a model series such as TotalRevenue.value - the reported yearly series stays the one '
+                   'NPV, IRR, VIR and MOIC were evaluated on, year for year')
+    check_series_arguments_untouched(ctx)
     ctx.undecided('that npf.irr finds the root (a reported non-zero IRR zeroes the NPV)', 'npf.npv numerics',
                   'N/A rendering of a zero payback in the report (C09)')
     ctx.assume('numpy_financial.irr returns a fraction and npv takes a fractional rate (library documentation)')
